@@ -5,7 +5,10 @@ directories) gives the same exact balance for every account, the same date-sorte
 per-date multisets of rows) and the same commodity display precision/style.
 Correspondence: the per-account balances, the number of accepted postings and the final pool
 precision predicted by the extracted model (Model/Journal.v over Model/Xact.v, given the same file
-tree) against ledger's `bal --flat` for every variant."""
+tree) against ledger's `bal --flat` for every variant.
+Layout stream (run_layout): trees of files with apply account / apply tag / alias / bucket / include (relative paths,
+a file included twice), several --file and --master-account: every register row against Model/Layout.read_journal,
+and the same directives laid out as one file / as one file of includes must give the same balances and register."""
 import os, re, itertools, shutil
 from fractions import Fraction as F
 import lib
@@ -15,10 +18,11 @@ META = dict(
     id='C08',
     level='proof',
     technique='Coq proof (Permutation-invariance of account sums over stable transactions, of posting order, of the learned pool precision; include = concatenation) + differential correspondence and metamorphic oracle over permuted / re-split journals',
-    level_text='Theorems in coq/Properties/Properties_C08.v: the balance bal shows is the exact sum of the account\'s postings; permuting transactions that are stable (contribute the same under every pool state and hash order - exactly balanced transactions are) changes no account sum; permuting postings inside an exactly balanced transaction keeps it balanced with the same contributions; the display precision the pool ends with is permutation-invariant in transactions and postings; a tree of included files is processed as the concatenation of its transactions. Outside the fragment acceptance is order dependent (acceptance_order_dependence_refuted, finding F11). Tie to the code: for generated base journals and their variants ledger\'s exact `bal --flat` rows are compared with the model\'s journal_balances on the same file tree, and ledger\'s own outputs are compared across variants.',
-    level_note='Trusted as C01. The include directive is modelled as concatenation in inclusion order (glob expansion and path resolution are not modelled; the harness uses explicit relative includes and one sorted glob). The register comparison across variants is an implementation-only relation (oracle).',
+    level_text='Theorems in coq/Properties/Properties_C08.v: the balance bal shows is the exact sum of the account\'s postings; permuting transactions that are stable (contribute the same under every pool state and hash order - exactly balanced transactions are) changes no account sum; permuting postings inside an exactly balanced transaction keeps it balanced with the same contributions; the display precision the pool ends with is permutation-invariant in transactions and postings; a tree of included files is processed as the concatenation of its transactions. Outside the fragment acceptance is order dependent (acceptance_order_dependence_refuted, finding F11). Tie to the code: for generated base journals and their variants ledger\'s exact `bal --flat` rows are compared with the model\'s journal_balances on the same file tree, and ledger\'s own outputs are compared across variants. File layout under scoping directives (Model/Layout.v): the apply stack belongs to one file (an included file starts from the including file\'s top account, cannot end the includer\'s apply, and what it leaves open ends with it), the alias table and the default account belong to the journal; a piece of a file that closes its own applies can be cut out into an included file without any change (cutting_a_closed_piece_into_an_included_file_changes_nothing), several --file are read as one file including them; the numbers the model computes with are re-read from textual.cc (Gen/LayoutScope.v, layout_scope_is_the_sources) and every register row of generated file trees (account, default account, tags) is compared with read_journal.',
+    level_note='Trusted as C01. The include directive is modelled as concatenation in inclusion order (path resolution is not modelled; the harness writes include paths relative to the including file over child, sibling and parent directories, and globs in the file-name part). The register comparison across variants is an implementation-only relation (oracle).',
     design_ref='DESIGN.md section 7 C08',
-    assumptions=['base journals contain only exactly balanced transactions (explicit amounts or one elided amount), no assertions, automated transactions, apply/alias/bucket/year directives',
+    assumptions=['base journals contain only exactly balanced transactions (explicit amounts or one elided amount), no assertions, automated transactions, apply/alias/bucket/year directives (permutation streams)',
+                 'layout stream: transactions with explicit amounts in one commodity; apply account, apply tag, end apply, alias (one round of expansion), bucket, include, several --file, --master-account; no year directives, no --recursive-aliases',
                  'transactions carry distinct payees so that register rows can be matched across variants'],
 )
 
@@ -250,6 +254,310 @@ def write_glob_tree(ctx, rng, xs, name, res):
     return main, tree
 
 
+# --------------------------------------------------------------------------- file layout with apply / alias / bucket
+# (Model/Layout.v)  A journal is a tree of files: transactions, `apply account`, `apply tag`, `end apply ..`, `alias`,
+# `bucket` and `include` with paths RELATIVE to the including file (child, parent and sibling directories), some files
+# included twice, one to three files named on the command line, with or without --master-account.
+# K: the account every posting is booked under, the default account that balances a one-posting transaction and the
+#    tags in force, row by row, against read_journal on the same tree; an `end apply` that has nothing of ITS file to
+#    end is an error in both.
+# O (property text: distributing the transactions over files joined by include changes no balance and no register):
+#    the same directives written as ONE file - every included file spliced in where its include stood, valid when each
+#    file ends the `apply`s it begins - and the files of the command line read from one file including them, give the
+#    same `bal --flat` and the same register.
+L_SEGS = ['Assets', 'Cash', 'Bank', 'Exp', 'Food', 'Rent', 'Top', 'Sub', 'Deep', 'Eq', 'Bk', 'Pool', 'al1', 'al2', 'al3']
+L_ID = {n: i + 1 for i, n in enumerate(L_SEGS)}
+L_TAGS = ['t0', 't1', 't2']
+L_REG = '%(payee)|%(account)|' + ','.join('%%(has_tag("%s"))' % t for t in L_TAGS) + '|%(verif_rational(amount))\n'
+
+
+def l_name(rng, alias_first=0.0, maxlen=3):
+    plain = L_SEGS[:12]
+    n = [rng.choice(plain) for _ in range(rng.randrange(1, maxlen + 1))]
+    if rng.random() < alias_first:
+        n[0] = rng.choice(L_SEGS[12:])
+    return tuple(n)
+
+
+def gen_layout_file(rng, st, depth, closed):
+    """items of one file; st: counters shared by the whole journal (reading order = generation order)"""
+    items, open_ = [], []
+    for _ in range(rng.randrange(2, 8)):
+        r = rng.random()
+        if r < 0.42:
+            st['n'] += 1
+            single = st['bucket'] and rng.random() < 0.4
+            names = [l_name(rng, 0.35)] if single else [l_name(rng, 0.35) for _ in range(rng.randrange(2, 4))]
+            items.append(('x', 'p%d' % st['n'], names, rng.randrange(1, 90)))
+        elif r < 0.54:
+            items.append(('aa', l_name(rng, maxlen=2)))
+            open_.append('a')
+        elif r < 0.62:
+            items.append(('at', rng.randrange(len(L_TAGS))))
+            open_.append('t')
+        elif r < 0.74:
+            if open_:
+                k = open_.pop()
+                items.append(('end', k if rng.random() < 0.6 else '-'))
+        elif r < 0.82:
+            key = (rng.choice(L_SEGS[12:]),) + ((rng.choice(L_SEGS[:12]),) if rng.random() < 0.15 else ())
+            items.append(('alias', key, l_name(rng, maxlen=2)))
+        elif r < 0.87:
+            items.append(('bucket', l_name(rng, maxlen=2)))
+            st['bucket'] = True
+        elif depth < 2 and st['files'] < 6:
+            prev = [i for i in items if i[0] == 'inc']
+            if prev and rng.random() < 0.25:
+                items.append(prev[-1])                        # the same file once more
+                st['twice'] = True
+            else:
+                st['files'] += 1
+                fid = st['files']
+                sub_closed = rng.random() < 0.7
+                items.append(('inc', fid, gen_layout_file(rng, st, depth + 1, sub_closed), sub_closed))
+    if st.get('bad') == depth and depth > 0 and not st.get('bad_done'):
+        # an `end apply` that only an apply of the INCLUDING file could answer
+        while open_:
+            items.append(('end', '-'))
+            open_.pop()
+        items.append(('end', rng.choice(['a', 't', '-'])))
+        st['bad_done'] = True
+    if closed:
+        while open_:
+            k = open_.pop()
+            items.append(('end', k if rng.random() < 0.5 else '-'))
+    return items
+
+
+def l_closed(items):
+    """python's own reading of `this file ends every apply it begins and no other` (recursively for what it includes)"""
+    d = 0
+    for it in items:
+        if it[0] in ('aa', 'at'):
+            d += 1
+        elif it[0] == 'end':
+            d -= 1
+            if d < 0:
+                return False
+        elif it[0] == 'inc' and not l_closed(it[2]):
+            return False
+    return d == 0
+
+
+def l_text(items, inc_line):
+    out = []
+    for it in items:
+        if it[0] == 'x':
+            amt = it[3]
+            names = it[2]
+            if len(names) == 1:
+                posts = ['    %s    $%d.00' % (':'.join(names[0]), amt)]
+            else:
+                posts = ['    %s    $%d.00' % (':'.join(names[0]), amt)] + \
+                        ['    %s    $%d.00' % (':'.join(n), 1) for n in names[1:-1]] + \
+                        ['    %s    $-%d.00' % (':'.join(names[-1]), amt + len(names) - 2)]
+            out.append('2020/01/%02d %s\n%s\n' % (1 + amt % 28, it[1], '\n'.join(posts)))
+        elif it[0] == 'aa':
+            out.append('apply account %s\n' % ':'.join(it[1]))
+        elif it[0] == 'at':
+            out.append('apply tag %s\n' % L_TAGS[it[1]])
+        elif it[0] == 'end':
+            out.append({'a': 'end apply account\n', 't': 'end apply tag\n', '-': 'end apply\n'}[it[1]])
+        elif it[0] == 'alias':
+            out.append('alias %s=%s\n' % (':'.join(it[1]), ':'.join(it[2])))
+        elif it[0] == 'bucket':
+            out.append('bucket %s\n' % ':'.join(it[1]))
+        elif it[0] == 'inc':
+            out.append(inc_line(it))
+    return '\n'.join(out)
+
+
+def l_sx(items):
+    dot = lambda n: '.'.join(str(L_ID[s]) for s in n) if n else '-'
+    out = []
+    for it in items:
+        if it[0] == 'x':
+            out.append(['x'] + [dot(n) for n in it[2]])
+        elif it[0] == 'aa':
+            out.append(['aa', dot(it[1])])
+        elif it[0] == 'at':
+            out.append(['at', 30 + it[1]])
+        elif it[0] == 'end':
+            out.append(['end', it[1]])
+        elif it[0] == 'alias':
+            out.append(['alias', dot(it[1]), dot(it[2])])
+        elif it[0] == 'bucket':
+            out.append(['bucket', dot(it[1])])
+        elif it[0] == 'inc':
+            out.append(['inc'] + l_sx(it[2]))
+    return out
+
+
+def l_xacts(items):
+    for it in items:
+        if it[0] == 'x':
+            yield it
+        elif it[0] == 'inc':
+            yield from l_xacts(it[2])
+
+
+L_DIRS = ['', 'sub', 'sub/deep', 'other']
+
+
+def l_write(root, rng, files):
+    """write the tree; every include path is relative to the directory of the file that holds it -> paths of the top files"""
+    where = {}
+
+    def place(fid):
+        if fid not in where:
+            where[fid] = os.path.join(rng.choice(L_DIRS), 'f%d.dat' % fid)
+        return where[fid]
+
+    def write(path, items):
+        here = os.path.dirname(path)
+
+        def inc_line(it):
+            tgt = place(it[1])
+            write(tgt, it[2])
+            return 'include %s\n' % os.path.relpath(tgt, here or '.')
+        text = l_text(items, inc_line)
+        os.makedirs(os.path.join(root, here), exist_ok=True)
+        open(os.path.join(root, path), 'w').write(text)
+    tops = []
+    for i, items in enumerate(files):
+        path = os.path.join(rng.choice(L_DIRS[:2]), 'main%d.dat' % i)
+        write(path, items)
+        tops.append(os.path.join(root, path))
+    return tops
+
+
+def l_inline(items):
+    out = []
+    for it in items:
+        if it[0] == 'inc':
+            out += l_inline(it[2])
+        else:
+            out.append(it)
+    return out
+
+
+def l_observe(tops, master):
+    args = []
+    for t in tops:
+        args += ['-f', t]
+    if master:
+        args += ['--master-account', ':'.join(master)]
+    st, out, err = lib.run_ledger(args + ['reg', '--format', L_REG])
+    rows = []
+    for l in out.decode('utf-8', 'replace').split('\n'):
+        f = l.split('|')
+        if len(f) == 4:
+            rows.append((f[0], f[1], tuple(i for i, b in enumerate(f[2].split(',')) if b == 'true'), f[3]))
+    st2, out2, err2 = lib.run_ledger(args + ['bal', '--flat', '--no-total', '--format', BAL])
+    bal = sorted(l for l in out2.decode('utf-8', 'replace').split('\n') if l)
+    return st, rows, (st2, bal), err.decode('utf-8', 'replace')
+
+
+def run_layout(ctx, res, n):
+    rng = ctx.rng
+    unid = {v: k for k, v in L_ID.items()}
+    name = lambda dotted: '' if dotted == '-' else ':'.join(unid[int(x)] for x in dotted.split('.'))
+    for j in range(n):
+        st = dict(n=0, files=0, bucket=False)
+        if rng.random() < 0.06:
+            st['bad'] = rng.randrange(1, 3)
+        nfiles = rng.choice([1, 1, 1, 2, 2, 3])
+        files = [gen_layout_file(rng, st, 0, rng.random() < 0.7) for _ in range(nfiles)]
+        master = l_name(rng, maxlen=2) if rng.random() < 0.25 else ()
+        root = ctx.path('layout%d' % (j % 4))
+        shutil.rmtree(root, ignore_errors=True)
+        os.makedirs(root)
+        tops = l_write(root, rng, files)
+        status, rows, bal, err = l_observe(tops, master)
+        res.evaluations += 1
+        res.count('layout:files=%d' % nfiles)
+        flat = [it for fl in files for it in fl]
+        has_inc = any(it[0] == 'inc' for it in flat)
+        if master:
+            res.count('layout:master-account')
+        if st.get('twice'):
+            res.count('layout:same-file-twice')
+        if st.get('bad_done'):
+            res.count('layout:end-apply-in-included-file-with-nothing-to-end')
+        for fl in files:
+            depth = 0
+            for it in fl:
+                depth += it[0] in ('aa', 'at')
+                depth -= it[0] == 'end'
+                if it[0] == 'inc':
+                    res.count('layout:include-under-apply' if depth > 0 else 'layout:include')
+                    if not l_closed(it[2]):
+                        res.count('layout:apply-left-open-in-included-file')
+                    if any(i[0] == 'alias' for i in it[2]):
+                        res.count('layout:alias-declared-in-included-file')
+                    if any(i[0] == 'bucket' for i in it[2]):
+                        res.count('layout:bucket-declared-in-included-file')
+        if has_inc or nfiles > 1:
+            res.nontrivial.add('layout:%d:' % j + str(files)[:400])
+        # K: the model on the same tree
+        out = lib.run_model('C08', [lib.sx(['layout', 'L%d' % j, '.'.join(str(L_ID[s]) for s in master) if master else '-'] + [['file'] + l_sx(fl) for fl in files])])
+        errs, mx = None, []
+        for l in out:
+            f = l.split(' ')
+            if f[1] == 'E':
+                errs = int(f[2])
+            elif f[1] == 'X':
+                mx.append(([name(a) for a in f[3].split(',')], None if f[4] == '-' else name(f[4]), () if f[5] == '-' else tuple(sorted(int(t) - 30 for t in set(f[5].split(',')))))) 
+        res.traces += 1
+        xs = [x for fl in files for x in l_xacts(fl)]
+        want = []
+        for x, (accts, bucket, tags) in zip(xs, mx):
+            for a in accts:
+                want.append((x[1], a, tags))
+            if len(accts) == 1 and bucket is not None:
+                want.append((x[1], bucket, tags))
+        got = [r[:3] for r in rows]
+        case = dict(files=tops, master=':'.join(master), text='\n'.join('==> %s\n%s' % (os.path.relpath(os.path.join(dp, f), root), open(os.path.join(dp, f)).read()) for dp, _, fs in sorted(os.walk(root)) for f in sorted(fs))[:4000])
+        if errs is None or len(mx) != len(xs):
+            res.disagreements.append(dict(name='C08/layout-model-output', case=case, impl='-', model=str(out)[:400]))
+        elif errs > 0:
+            if status == 0:
+                res.disagreements.append(dict(name='C08/layout-error', case=case, impl='accepted', model='%d errors' % errs))
+        elif status != 0 or got != want:
+            res.disagreements.append(dict(name='C08/layout-accounts', case=case, status=status, err=err[-300:],
+                                          impl=str([g for g, w in zip(got, want) if g != w][:4]) + ' of %d rows' % len(got),
+                                          model=str([w for g, w in zip(got, want) if g != w][:4]) + ' of %d rows' % len(want)))
+        if len(res.samples) < 5 and has_inc and j > 3:
+            res.samples.append(dict(layout=case['text'][:500], rows=str(got[:6])))
+        if errs or status != 0:
+            continue
+        # O: other layouts of the same directives
+        variants = []
+        if nfiles > 1:
+            # the files of the command line, included in that order from one file
+            vroot = ctx.path('layoutv')
+            shutil.rmtree(vroot, ignore_errors=True)
+            os.makedirs(vroot)
+            open(os.path.join(vroot, 'all.dat'), 'w').write(''.join('include %s\n' % os.path.relpath(t, vroot) for t in tops))
+            variants.append(('files-as-includes', [os.path.join(vroot, 'all.dat')]))
+        if all(l_closed(fl) for fl in files) and (has_inc or nfiles > 1):
+            vroot = ctx.path('layouti')
+            shutil.rmtree(vroot, ignore_errors=True)
+            os.makedirs(vroot)
+            open(os.path.join(vroot, 'one.dat'), 'w').write(l_text([it for fl in files for it in l_inline(fl)], None))
+            variants.append(('one-file', [os.path.join(vroot, 'one.dat')]))
+        for kind, vtops in variants:
+            res.evaluations += 1
+            res.count('layout-variant:' + kind)
+            vst, vrows, vbal, verr = l_observe(vtops, master)
+            if vst != status or vbal != bal:
+                res.violations.append(dict(key='layout-differs:balance:' + kind, desc='`bal --flat` differs when the same directives are laid out as ' + kind,
+                                           case=dict(case, variant=[open(t).read() for t in vtops]), observed=str(vbal)[:500], required=str(bal)[:500]))
+            elif vrows != rows:
+                res.violations.append(dict(key='layout-differs:register:' + kind, desc='the register differs when the same directives are laid out as ' + kind,
+                                           case=dict(case, variant=[open(t).read() for t in vtops]), observed=str([v for v, r in zip(vrows, rows) if v != r][:4]), required=str([r for v, r in zip(vrows, rows) if v != r][:4])))
+
+
 def run_variant(ctx, main):
     LOTS = {}
     st, out, err = lib.run_ledger(['-f', main, 'bal', '--flat', '--empty', '--no-total', '--format', BAL])
@@ -429,6 +737,7 @@ def run(ctx, n_override=None):
                 if {d: sorted(v) for d, v in reg.items()} != {d: sorted(v) for d, v in ref[2].items()}:
                     res.violations.append(dict(key='register-differs:pperm', desc='the register rows differ (as per-date multisets) from the base journal',
                                                case=dict(base=ref[3], variant=main, text=open(main).read()), observed=str(sorted(reg.items()))[:500], required=str(sorted(ref[2].items()))[:500]))
+    run_layout(ctx, res, (n_override or ctx.scale(150, 900)))
     return res
 
 
